@@ -15,6 +15,26 @@ use std::process::exit;
 
 fn main() {
     let args: Vec<String> = std::env::args().collect();
+    if args.len() >= 2 && args[1] == "locate" {
+        // vx locate --repo <dir> --type <T> --fn <name>: find `impl T { fn name }` (or a free fn when T is empty) in the crate sources
+        let mut repo = String::new();
+        let mut ty = String::new();
+        let mut name = String::new();
+        let mut i = 2;
+        while i + 1 < args.len() {
+            match args[i].as_str() {
+                "--repo" => repo = args[i + 1].clone(),
+                "--type" => ty = args[i + 1].clone(),
+                "--fn" => name = args[i + 1].clone(),
+                _ => {}
+            }
+            i += 2;
+        }
+        for hit in template::locate(&repo, &ty, &name) {
+            println!("{hit}");
+        }
+        return;
+    }
     if args.len() < 2 || args[1] != "extract" {
         eprintln!("usage: vx extract --repo <dir> --unit <unit.vrs> --out <file.rs> --log <file.json> [--canary]");
         exit(64);
